@@ -44,6 +44,10 @@ def sh(cmd, timeout=600, cwd=None, env=None):
         return 124, out + f"\nTIMEOUT after {timeout}s: {cmd}"
 
 
+IMPORT_RE = re.compile(r"Require\b(?:(?!\.\s)[\s\S])*?\b(Psatz|Lra|Reals|Rbase|Classical\w*|FunctionalExtensionality|ProofIrrelevance|Program|JMeq|Equations|Hammer|"
+                       r"Epsilon|ChoiceFacts|Description|Floats)\b")
+
+
 class Lock:
     def __init__(self, path=f"{COQ}/.lock"):
         self.path = path
@@ -334,6 +338,9 @@ class Run:
             txt_nc = re.sub(r"\(\*.*?\*\)", "", txt, flags=re.S)
             for m in HYGIENE_RE.finditer(txt_nc):
                 self.red.append(f"hygiene: {f} contains '{m.group(1)}'")
+            # libraries that bring axioms into `coqchk -o` although no theorem uses them (the trusted base names none of these)
+            for m in IMPORT_RE.finditer(txt_nc):
+                self.red.append(f"hygiene: {f} imports '{m.group(1)}' (loads axioms of the standard library: use Lia / Lqa / Qfield instead)")
             # Variable/Hypothesis outside a Section
             depth = 0
             for line in txt_nc.splitlines():
